@@ -51,6 +51,11 @@ def c20(ctx):
              "library's -- no code under src/cli mutates LinterResult.diags, and the chain from diags to the printed segments only maps and "
              "flattens (no filter / dedup / skip / take / rev)")
     hand_through_rule(ctx, "C20.R5")
+    rep.rule("C20.R6", "the real stdout gets what the library's writer gets: Environment::output makes one *complete* write per say (write_fmt / "
+             "write_all; a bare `write` may be cut short by the line-buffered process stdout and not by a Vec) -- C08.R1 and the fault table "
+             "C08.R7 re-checked here")
+    from . import c08 as _c08
+    common.rerun_under(ctx, _c08.c08, "C20.R6", keep=lambda r: r in ("C08.R1", "C08.R7"))
     # ---- R1
     want_chain = {
         "cli::exec::run": {"cli::parser::parse", "exec::exec"},
